@@ -1240,6 +1240,34 @@ def run(ctx) -> None:
         if not all(x == a["printed"] for x in impl):
             res.disagree("render", rq, a["printed"], impl)
 
+    # ---------------------------------------------------------------- the same path checked again after it was rewritten
+    # (several runs in one process: an editor integration, a test harness): the second report's positions are positions of the
+    # file AS IT IS NOW
+    from . import c11 as _c11
+
+    v1 = 'import os\nx = int(0)\n\n\ndef f(p: str) -> str:\n    return os.path.join(p, "a")\n'
+    v2 = '"""a docstring that was not there before"""\n\nimport os\n\nunrelated_name_here = None\nyy = {"k": [int(0)]}\n\n\ndef f(p: str) -> str:\n    if p:\n        return os.path.join(p, "a")\n    return p\n'
+    with core.scratch("rv-c07h-") as hd:
+        (hd / "pyproject.toml").write_text("")
+        (hd / "module.py").write_text(v1)
+        plan = [{"op": "run", "argv": ["module.py", "--enable-all", "--quiet"]}, {"op": "write", "path": "module.py", "text": v2},
+                {"op": "run", "argv": ["module.py", "--enable-all", "--quiet"]}, {"op": "write", "path": "module.py", "text": v1},
+                {"op": "run", "argv": ["module.py", "--enable-all", "--quiet"]}]
+        outs_h = _c11.in_process(hd, plan, "rewrite")
+    for step, (text_now, out_h) in enumerate(zip((v1, v2, v1), outs_h)):
+        diags_h, _oth = core.parse_plain(out_h)
+        starts = {(t.start[0], len(text_now.split("\n")[t.start[0] - 1][: t.start[1]].encode("utf8")) + 1) for t in toks_of(text_now) if t.type not in (tokenize.NEWLINE, tokenize.NL, tokenize.INDENT, tokenize.DEDENT, tokenize.ENDMARKER, tokenize.COMMENT)}
+        res.case(("rewritten-between-runs", step))
+        res.bump("in_process_rewrite_runs")
+        bad_h = [x for x in diags_h if (x["line"], x["col"]) not in starts]
+        if bad_h or not diags_h:
+            res.violate(
+                f"run #{step + 1} in one process, after the file was rewritten: " + (f"{bad_h[0]['prefix']}{bad_h[0]['code']} is reported at {bad_h[0]['line']}:{bad_h[0]['col']} where no token of the CURRENT file starts" if bad_h else "no diagnostic at all"),
+                {"kind": "stale-position-after-rewrite"},
+                {"file_now": text_now, "report": out_h, "plan": "run; rewrite module.py; run; rewrite it back; run (harness/props/c11.py:WORKER)", "how": "refurb.main.run_refurb(load_settings([...])) three times in one process with the file rewritten in between"},
+            )
+            break
+
     res.assumptions += [
         "FirstTokenInvariant: mypy gives every node the line / UTF-8 byte column of its first token (and the end of its last token as end_line/end_column); "
         "assumed by from_node_valid, list_extend_valid and the layout models, validated by the tokenizer oracle on every diagnostic of this run and by the "
